@@ -434,6 +434,8 @@ impl Shared {
             Garbage,
             Eof,
             ZeroReceiveMax,
+            /// the broker starts a fresh session (session present = 0) and the CONNACK carries an illegal value
+            ZeroReceiveMaxFresh,
         }
         let mut opts: Vec<(V, bool)> = Vec::new();
         if can_resume {
@@ -453,6 +455,7 @@ impl Shared {
                 V::Garbage,
                 V::Eof,
                 V::ZeroReceiveMax,
+                V::ZeroReceiveMaxFresh,
             ] {
                 opts.push((v, true));
             }
@@ -525,9 +528,9 @@ impl Shared {
                 self.broker.handshake_failed();
                 self.conns[c].eof_pending = true;
             }
-            V::ZeroReceiveMax => {
+            V::ZeroReceiveMax | V::ZeroReceiveMaxFresh => {
                 let props = broker::connack_props(Some(0), None, None, None, None);
-                let resume = can_resume;
+                let resume = can_resume && opts[i].0 == V::ZeroReceiveMax;
                 let pkt = self.broker.connack(e, resume, props);
                 self.broker.handshake_failed();
                 self.push_inbound(c, pkt);
